@@ -281,8 +281,8 @@ PROPS = {
   "explanation": "theorems are proved THROUGH the regenerated operator lists (Gen.CL.ops_*): a changed rounding operator in the Go source changes the model and breaks the unfolding obligations",
  },
  "C02": {
-  "modules": ["OsmoVerif.Props.C02"],
-  "min_theorems": 17,
+  "modules": ["OsmoVerif.Props.C02", "OsmoVerif.Props.C02C04"],
+  "min_theorems": 50,
   "fingerprints": ["Gamm.*"],
   "engines": [{"name": "gamm", "kind": "app", "n": {"quick": 2500, "thorough": 60000}, "shards": {"quick": 4, "thorough": 16}}],
   "rule": "histories of 40..140 messages on a fresh chain: 4 actors (one poor), 2..6 balancer pools (2..8 assets, weights 1:1..1:1048575, spread 0..0.5, "
@@ -291,8 +291,10 @@ PROPS = {
           "amounts from 1 unit to 1000x the reserve; an evaluation is one message (op line + full ledger dump); non-trivial = a message line",
   "trusted_base": ["cosmos-sdk x/bank and x/distribution keepers (modelled as the ledger Model/Ledger)",
                    "the pool-model results on each op line are produced by the engine calling the real pool structs' methods on private copies (pool math is C04)"],
-  "assumptions": ["pool math is out of scope: theorems hold for any pool-math results; the equality pool account = reserves + donations needs the history to "
-                  "stay inside the pool-math contract (ghost flag `clean`, characterised by contract_swap/contract_exit/contract_join)",
+  "assumptions": ["Props.C02: theorems hold for any pool-math results; the equality pool account = reserves + donations needs the history to "
+                  "stay inside the pool-math contract (ghost flag `clean`, characterised by contract_swap/contract_exit/contract_join); "
+                  "Props.C02C04 discharges the contract for histories whose pool-math results are those of Model/Gamm (mathIsGamm): inside the "
+                  "contract iff no balancer exact-in swap answered with the entire out-reserve (iff Pow <= 0, F13), never with equal weights",
                   "tx atomicity (failed message = no state change) is the cache-context discipline of baseapp, reproduced by the engine"],
   "explanation": "trace refinement: the Lean model is the bank ledger + pool-record bookkeeping of the gamm keeper and the poolmanager router, replayed on every "
                  "message with the pool-math results of that step and compared with ALL balances, supplies and pool records of the real chain; theorems by induction "
@@ -401,8 +403,9 @@ PROPS = {
                  "finished => filled = numEpochs is refuted by a witness); failing operations are no-ops. Model tied to the real keepers by differential run.",
  },
  "C04": {
-  "modules": ["OsmoVerif.Props.C04", "OsmoVerif.Props.TieGenGammMath"],
-  "min_theorems": 51,
+  "modules": ["OsmoVerif.Props.C04", "OsmoVerif.Props.TieGenGammMath", "OsmoVerif.Props.C02C04", "OsmoVerif.Props.C04Real",
+              "OsmoVerif.Props.C04Seq", "OsmoVerif.Props.C04Stable"],
+  "min_theorems": 170,
   "fingerprints": ["GammMath.*", "Osmomath.Pow", "Osmomath.PowApprox", "Osmomath.AbsDifferenceWithSign", "Osmomath.BinarySearch*", "Osmomath.ErrTolerance_*"],
   "engines": [{"name": "gammmath", "kind": "pure", "n": {"quick": 6000, "thorough": 150000}, "shards": {"quick": 4, "thorough": 16}}],
   "rule": "in-memory balancer and stableswap pools (2-8 assets; reserves 1..10^30 balanced / strongly unbalanced / tiny; user weights 1..2^20-1, "
